@@ -114,32 +114,43 @@ Proof.
   - apply in_seq. pose proof (N_ascii_bounded c) as B. unfold code. lia.
 Qed.
 
+Definition listed_or_unranked (c : ascii) : bool := negb (in_table c) || existsb (eqc c) table_chars.
+Lemma table_complete_rows : forall c, In c all_chars -> listed_or_unranked c = true.
+Proof. apply forallb_forall. vm_compute. reflexivity. Qed.
 Lemma in_table_listed c : in_table c = true -> In c table_chars.
 Proof.
-  intros H. pose proof table_complete_ok as T. unfold table_complete in T. rewrite forallb_forall in T.
-  specialize (T c (all_chars_complete c)). rewrite H in T. change (negb true) with false in T. rewrite orb_false_l in T. apply existsb_exists in T.
+  intros H. pose proof (table_complete_rows c (all_chars_complete c)) as T. unfold listed_or_unranked in T.
+  rewrite H in T. change (negb true) with false in T. rewrite orb_false_l in T. apply existsb_exists in T.
   destruct T as [x [Hx E]]. apply eqc_eq in E. subst. exact Hx.
+Qed.
+
+(* one row of the check, stated through a named predicate so that the kernel compares the statement proved by
+   computation with its uses by name and does not re-evaluate the table *)
+Definition row_ok (c1 : ascii) : bool :=
+    negb (is_digit c1)
+    && cmp_eqb (Nat.compare (rk c1) er) (Z.compare (policy_order c1) end_of_part)
+    && cmp_eqb (Nat.compare er (rk c1)) (Z.compare end_of_part (policy_order c1))
+    && forallb (fun c2 => cmp_eqb (Nat.compare (rk c1) (rk c2)) (Z.compare (policy_order c1) (policy_order c2))) table_chars.
+Lemma rows_ok : forall c1, In c1 table_chars -> row_ok c1 = true.
+Proof. apply forallb_forall. vm_compute. reflexivity. Qed.
+Lemma policy_row c1 : In c1 table_chars ->
+  is_digit c1 = false /\ Nat.compare (rk c1) er = Z.compare (policy_order c1) end_of_part /\
+  Nat.compare er (rk c1) = Z.compare end_of_part (policy_order c1) /\
+  forall c2, In c2 table_chars -> Nat.compare (rk c1) (rk c2) = Z.compare (policy_order c1) (policy_order c2).
+Proof.
+  intros H1. pose proof (rows_ok c1 H1) as R. unfold row_ok in R.
+  destruct (andb_prop _ _ R) as [R1 R4]. destruct (andb_prop _ _ R1) as [R2 R3]. destruct (andb_prop _ _ R2) as [R5 R6].
+  split; [apply negb_true_iff; exact R5|]. split; [apply cmp_eqb_eq; exact R6|]. split; [apply cmp_eqb_eq; exact R3|].
+  intros c2 H2. apply cmp_eqb_eq. exact (proj1 (forallb_forall _ _) R4 c2 H2).
 Qed.
 
 Lemma rank_iso c1 c2 : in_table c1 = true -> in_table c2 = true ->
   Nat.compare (rk c1) (rk c2) = Z.compare (policy_order c1) (policy_order c2).
-Proof.
-  intros H1 H2. pose proof table_follows_policy_ok as T. unfold table_follows_policy in T. rewrite forallb_forall in T.
-  specialize (T c1 (in_table_listed c1 H1)). repeat (apply andb_true_iff in T; destruct T as [T ?]).
-  match goal with H : forallb _ table_chars = true |- _ => rewrite forallb_forall in H; apply cmp_eqb_eq, (H c2 (in_table_listed c2 H2)) end.
-Qed.
+Proof. intros H1 H2. apply (policy_row c1 (in_table_listed c1 H1)). apply (in_table_listed c2 H2). Qed.
 Lemma rank_iso_l c : in_table c = true -> Nat.compare (rk c) er = Z.compare (policy_order c) end_of_part.
-Proof.
-  intros H1. pose proof table_follows_policy_ok as T. unfold table_follows_policy in T. rewrite forallb_forall in T.
-  specialize (T c (in_table_listed c H1)). repeat (apply andb_true_iff in T; destruct T as [T ?]).
-  apply cmp_eqb_eq. assumption.
-Qed.
+Proof. intros H1. apply (policy_row c (in_table_listed c H1)). Qed.
 Lemma rank_iso_r c : in_table c = true -> Nat.compare er (rk c) = Z.compare end_of_part (policy_order c).
-Proof.
-  intros H1. pose proof table_follows_policy_ok as T. unfold table_follows_policy in T. rewrite forallb_forall in T.
-  specialize (T c (in_table_listed c H1)). repeat (apply andb_true_iff in T; destruct T as [T ?]).
-  apply cmp_eqb_eq. assumption.
-Qed.
+Proof. intros H1. apply (policy_row c (in_table_listed c H1)). Qed.
 
 Lemma ranked_Forall p : ranked p = true -> Forall (fun c => in_table c = true) p.
 Proof. unfold ranked. rewrite forallb_forall. intros H. apply Forall_forall. intros c Hc. exact (H c Hc). Qed.
